@@ -1,4 +1,5 @@
-import Ledger.Ctrl.Controller
+import Ledger.Ctrl.Import
+import Ledger.Ctrl.Spec
 
 /-! Concrete states and operations used by the non-vacuity examples of the
     controller-layer property files. -/
@@ -10,5 +11,23 @@ def s1 : State := (step false {} { kind := .createP {} [⟨"world", "bank", 100,
 def overdraw : Op := { kind := .createP {} [⟨"bank", "users:1", 150, "USD"⟩] false, now := 20 }
 def pay (dry : Bool) : Op := { kind := .createP {} [⟨"bank", "users:1", 50, "USD"⟩] false, now := 20, dry := dry }
 
+
+def payIK : Op := { pay false with ik := "k1", ihash := "h1" }
+def payRef : Op := { kind := .createP { reference := "r1" } [⟨"world", "bank", 5, "USD"⟩] false, now := 30 }
+
+/-- Witness 1 (chart defaults): a schema whose chart gives `users:001` the default
+    `role = user`, then a metadata save creating `users:001` under that schema. -/
+def histDefaults : List Op := [
+  { kind := .insertSchema "v1" (some ("{}", [("users:001", [("role", "user")]), ("world", [])])) [] false, now := 10 },
+  { kind := .saveAccMeta "users:001" [("k", "v")], now := 20, sv := "v1" } ]
+
+/-- Witness 2 (account dates): a transaction dated in the future creates `fees`
+    (first usage = 1000), then a metadata save on `fees` at 20. -/
+def histDates : List Op := [
+  { kind := .createP { timestamp := some 1000 } [⟨"world", "fees", 0, "USD"⟩] false, now := 10 },
+  { kind := .saveAccMeta "fees" [("role", "x")], now := 20 } ]
+
+/-- Export the journal of `s`, import it into an empty ledger. -/
+def replay (s : State) : State × Option ImportErr := importLogs 0 {} (exportLogs s)
 
 end Ledger.Ctrl.Examples
